@@ -9,10 +9,11 @@ Import ListNotations.
 Local Open Scope N_scope.
 
 (* before every preTestAction (after k tests and the outside statements that precede test k) no record of the table is stamped
-   `checking`: every one is stamped `enabled`, the detector's period is `enabled`, totalMemoryLeaks(checking) = 0 *)
+   `checking` (they are `enabled`, or `disabled` when made before the plugin existed), the detector's period is `enabled`,
+   totalMemoryLeaks(checking) = 0 *)
 Theorem C07_inv_no_checking_between_tests : forall s k, valid s = true ->
-  let w := world_before_pre (s_tests s) k in
-  Forall (fun n => n_period n = SEnabled) (flat (d_tbl (w_det w))) /\
+  let w := world_before_pre s k in
+  Forall (fun n => n_period n <> SChecking) (flat (d_tbl (w_det w))) /\
   d_period (w_det w) = SEnabled /\ t_total PChecking (d_tbl (w_det w)) = 0.
 Proof. exact inv_no_checking_between_tests. Qed.
 Print Assumptions C07_inv_no_checking_between_tests.
@@ -22,7 +23,7 @@ Print Assumptions C07_inv_no_checking_between_tests.
 Theorem C07_verdict_iff : forall s i, valid s = true -> (i < length (s_tests s))%nat ->
   let ex := executed (nth i (s_tests s) no_test) in
   let o := nth i (o_tests (run s)) no_item in
-  (ti_leak o = 1 <-> own_failures ex = 0 /\ asked_ignore ex = false /\ len (leaks_of (s_tests s) i) <> declared ex) /\
+  (ti_leak o = 1 <-> own_failures ex = 0 /\ asked_ignore ex = false /\ len (leaks_of s i) <> declared ex) /\
   (ti_leak o = 0 \/ ti_leak o = 1) /\
   ti_fail o = own_failures ex + ti_leak o.
 Proof. exact verdict_iff. Qed.
@@ -31,16 +32,16 @@ Print Assumptions C07_verdict_iff.
 (* the report of a leak failure lists exactly L_i (each block once), with the right total *)
 Theorem C07_report_exact : forall s i, valid s = true -> (i < length (s_tests s))%nat ->
   let o := nth i (o_tests (run s)) no_item in
-  (ti_leak o = 1 -> Permutation (ti_entries o) (leaks_of (s_tests s) i) /\ ti_total o = len (leaks_of (s_tests s) i) /\
-                    ti_many o = false /\ (ti_noleaks o = true <-> leaks_of (s_tests s) i = [])) /\
+  (ti_leak o = 1 -> Permutation (ti_entries o) (leaks_of s i) /\ ti_total o = len (leaks_of s i) /\
+                    ti_many o = false /\ (ti_noleaks o = true <-> leaks_of s i = [])) /\
   (ti_leak o = 0 -> ti_entries o = []).
 Proof. exact report_exact. Qed.
 Print Assumptions C07_report_exact.
 
 (* a block leaked by test i is never listed for, nor counted in L_j of, a later test j *)
 Theorem C07_no_cross_blame : forall s i j, valid s = true -> (i < j)%nat -> (j < length (s_tests s))%nat ->
-  forall e, In e (leaks_of (s_tests s) i) ->
-    ~ In (fst e) (map fst (ti_entries (nth j (o_tests (run s)) no_item))) /\ ~ In (fst e) (map fst (leaks_of (s_tests s) j)).
+  forall e, In e (leaks_of s i) ->
+    ~ In (fst e) (map fst (ti_entries (nth j (o_tests (run s)) no_item))) /\ ~ In (fst e) (map fst (leaks_of s j)).
 Proof. exact no_cross_blame. Qed.
 Print Assumptions C07_no_cross_blame.
 
@@ -52,17 +53,17 @@ Print Assumptions C07_foreign_release_no_offset.
 
 (* before every preTestAction the plugin's flags are back at their defaults: nothing carries over to the next test *)
 Theorem C07_flags_reset : forall s k, valid s = true ->
-  let w := world_before_pre (s_tests s) k in w_ignore w = false /\ w_expected w = 0 /\ w_err w = false.
+  let w := world_before_pre s k in w_ignore w = false /\ w_expected w = 0 /\ w_err w = false.
 Proof. exact flags_reset. Qed.
 Print Assumptions C07_flags_reset.
 
 (* ... at the level of whole runs: two programs that differ only in what ONE test declares (its EXPECT_N_LEAKS /
    IGNORE_ALL_LEAKS_IN_TEST statements, anywhere in its phases) give every OTHER test the same failures, verdict and report *)
-Theorem C07_flags_do_not_carry_over : forall P Q t t' tail tail' k k' j,
+Theorem C07_flags_do_not_carry_over : forall pre P Q t t' tail tail' k k' j,
   strip_test t = strip_test t' ->
-  valid (mkS (P ++ t :: Q) tail k) = true -> valid (mkS (P ++ t' :: Q) tail' k') = true ->
+  valid (mkS pre (P ++ t :: Q) tail k) = true -> valid (mkS pre (P ++ t' :: Q) tail' k') = true ->
   j <> length P -> (j < length (P ++ t :: Q))%nat ->
-  item_same (nth j (o_tests (run (mkS (P ++ t :: Q) tail k))) no_item) (nth j (o_tests (run (mkS (P ++ t' :: Q) tail' k'))) no_item).
+  item_same (nth j (o_tests (run (mkS pre (P ++ t :: Q) tail k))) no_item) (nth j (o_tests (run (mkS pre (P ++ t' :: Q) tail' k'))) no_item).
 Proof. exact flags_do_not_carry_over. Qed.
 Print Assumptions C07_flags_do_not_carry_over.
 
@@ -74,14 +75,17 @@ Theorem C07_already_failed_no_extra : forall s i, valid s = true -> (i < length 
 Proof. exact already_failed_no_extra. Qed.
 Print Assumptions C07_already_failed_no_extra.
 
-(* FinalReport(k) is silent iff the number of blocks outstanding at the end is k; otherwise it lists exactly those blocks *)
+(* FinalReport(k) is silent iff the number of blocks obtained since the plugin was created and outstanding at the end is k;
+   otherwise it lists exactly those blocks (blocks obtained before the plugin existed -- period `disabled` -- are not its business) *)
 Theorem C07_final_report : forall s, valid s = true -> final_good s (run s).
 Proof. exact final_report_exact. Qed.
 Print Assumptions C07_final_report.
 
 (* the control flow of Utest::run is the sequential execution of the statements the text says are executed *)
-Theorem C07_run_body_is_executed : forall w t, run_body w t = fold_left step (executed t) w.
-Proof. exact run_body_spec. Qed.
+Theorem C07_run_body_is_executed : forall w t,
+  run_body w t = fold_left step (phase_text t) w /\
+  fold_left step (t_ipost t) (run_body (fold_left step (t_ipre t) w) t) = fold_left step (executed t) w.
+Proof. exact control_flow. Qed.
 Print Assumptions C07_run_body_is_executed.
 
 (* the executable oracle used on the implementation's observations accepts every model observation *)
